@@ -4,6 +4,8 @@ package benchfmt
 
 import (
 	"math"
+
+	"golang.org/x/perf/benchunit"
 	"bytes"
 	"io"
 	"strconv"
@@ -245,6 +247,8 @@ var h02BenchTemplates = []string{
 	"BenchmarkX?1?5?u", "BenchmarkX 1 ?? u", "Benchmark???", "BenchmarkX ?? 5 u", "BenchmarkX 1 5 u?7?v", "BenchmarkX 1 5??",
 	// '#' is a decimal digit, case-split: measurements and iteration counts at the edge of int64
 	"BenchmarkX 1 922337203685477580# u", "BenchmarkX 1 92233720368547758## u 3 v", "BenchmarkX 922337203685477580# 5 u", "BenchmarkX 1 1844674407370955161# u",
+	// measurements in units that are normalised, the value possibly zero
+	"BenchmarkX 1 ? ns/op", "BenchmarkX 1 ?? MB/s 0 ns",
 }
 
 // H02Bench: benchmark lines with symbolic holes; record kind and content
@@ -352,6 +356,10 @@ func H02Bench() {
 				gv = res.Values[k].OrigValue
 			}
 			vndAssert(vndOr(math.Float64bits(gv) == math.Float64bits(wv), vndAnd(gv != gv, wv != wv)), "result-measurement-as-written")
+			// and it is reported in the base unit, whatever the value
+			tv, tu := benchunit.Tidy(wv, string(fields[2+2*k]))
+			vndAssert(res.Values[k].Unit == tu, "result-measurement-in-the-base-unit")
+			vndAssert(vndOr(math.Float64bits(res.Values[k].Value) == math.Float64bits(tv), vndAnd(tv != tv, res.Values[k].Value != res.Values[k].Value)), "result-measurement-in-the-base-unit")
 		}
 	}
 }
